@@ -456,6 +456,17 @@ func (c *ctx) engineCase(a, b Schema, desc string, o engineOpts) {
 			panic(fmt.Sprintf("harness: insert failed: %v (%s)", err, insertSQL(r, *a.table(r.table))))
 		}
 	}
+	if o.fill != nil {
+		// what the table really holds (without a model a generated row the current schema rejects is left out)
+		f := *o.fill
+		if err := l.db.QueryRow("SELECT count(*), count(*) - count("+q(f.col)+") FROM "+q(f.table)).Scan(&f.total, &f.nulls); err != nil {
+			panic(err)
+		}
+		o.fill = &f
+		if f.nulls == 0 {
+			c.w.Count("engine.fill-without-nulls")
+		}
+	}
 	if o.fk {
 		if err := l.exec("PRAGMA foreign_keys = on"); err != nil {
 			panic(err)
@@ -629,6 +640,23 @@ func (c *ctx) engineCase(a, b Schema, desc string, o engineOpts) {
 	finish()
 }
 
+// genToPlain: a generated column of a that is an ordinary column in b -- the rebuild copies the computed values,
+// which the engine model (rows hold stored columns only) does not evaluate: no populated model case for such pairs
+func genToPlain(a, b Schema) bool {
+	for _, t := range a.Tables {
+		bt := b.table(t.Name)
+		if bt == nil {
+			continue
+		}
+		for _, c := range t.Cols {
+			if bc := bt.col(c.Name); c.Gen != nil && bc != nil && bc.Gen == nil {
+				return true
+			}
+		}
+	}
+	return false
+}
+
 func runEngine(c *ctx) {
 	c.w.Rule = "a case is non-trivial when the real differ reports a non-empty change list between the inspected current database and the desired schema; distinct by that list"
 	n := 1000
@@ -646,7 +674,7 @@ func runEngine(c *ctx) {
 	np := n / 4
 	for i := 0; i < np; i++ {
 		a, b, d := pg.pair()
-		if d == "unrelated" || strings.Contains(d, "mod-col-type") || !simpleDefaults(b) || !simpleDefaults(a) {
+		if d == "unrelated" || strings.Contains(d, "mod-col-type") || !simpleDefaults(b) || !simpleDefaults(a) || genToPlain(a, b) {
 			continue
 		}
 		o := engineOpts{file: i%3 == 0, fk: i%2 == 0, withModel: true}
@@ -673,7 +701,7 @@ func runEngine(c *ctx) {
 		if !o.viaAtlas && c.r.Chance(1, 4) && c.g.addUniques(&a, &b) {
 			d += "+uniques"
 		}
-		if c.r.Chance(1, 3) && simpleDefaults(b) && !strings.Contains(d, "mod-col-type") && d != "unrelated" {
+		if c.r.Chance(1, 3) && simpleDefaults(b) && !strings.Contains(d, "mod-col-type") && d != "unrelated" && !genToPlain(a, b) {
 			noNull = aliasCols(b)
 			for _, t := range a.Tables {
 				o.rows = append(o.rows, genRows(c.g, t)...)
@@ -818,7 +846,7 @@ func runUpDown(c *ctx) {
 			d = "additive:" + strings.Join(kinds, "+")
 		}
 		o := engineOpts{updown: true, file: c.r.Chance(1, 3), fk: c.r.Bool(), withModel: true, viaAtlas: c.r.Chance(1, 3)}
-		if c.r.Chance(1, 3) && simpleDefaults(b) && !strings.Contains(d, "mod-col-type") && d != "unrelated" {
+		if c.r.Chance(1, 3) && simpleDefaults(b) && !strings.Contains(d, "mod-col-type") && d != "unrelated" && !genToPlain(a, b) {
 			noNull = aliasCols(b)
 			for _, t := range a.Tables {
 				o.rows = append(o.rows, genRows(c.g, t)...)
